@@ -126,14 +126,20 @@ def real_hedge_calls(reps, seed):
         def __call__(self, *a):
             return np.zeros(2), 0.0
 
+    import pybads.search.es_search as es_mod
+
+    # stub the strategies at the class level (ESSearch.__call__), so that the driver does not depend on HOW the
+    # hedge constructs them
+    o_es_call = es_mod.ESSearch.__call__
+    es_mod.ESSearch.__call__ = lambda self, *a, **k: (np.zeros(2), 0.0)
     o_wm, o_ell = sh.ESSearchWM, sh.ESSearchELL
-    sh.ESSearchWM, sh.ESSearchELL = Stub, Stub
     st = np.random.get_state()
     np.random.seed(seed)
     try:
         for _ in range(reps):
             opts = {"hedge_gamma": float(rs.choice([0.125, 0.0, 0.4, 0.01])), "hedge_beta": float(10 ** rs.uniform(-3, 2)),
-                    "hedge_decay": 0.9, "n_search_iter": 2, "n_search": 64}
+                    "hedge_decay": 0.9, "n_search_iter": 2, "n_search": 64, "poll_mesh_multiplier": 2.0, "es_start": 0.25,
+                    "search_acq_fcn": ("acq_LCB", None), "es_beta": 1}
             h = sh.ESSearchHedge([("ES-wcm", 1), ("ES-ell", 1)], opts, None)
             h.g = rs.normal(size=2) * 10 ** rs.uniform(-3, 8)
             h(np.zeros(2), None, None, None, None, {})
@@ -143,7 +149,7 @@ def real_hedge_calls(reps, seed):
             if not (np.all(np.isfinite(p)) and abs(p.sum() - 1) <= 1e-12 and np.all(p >= h.gamma - 1e-15) and 0 <= ch < 2):
                 viol.setdefault("C18/hedge-probabilities-improper", {"prob": p.tolist(), "g": h.g.tolist(), "opts": opts})
     finally:
-        sh.ESSearchWM, sh.ESSearchELL = o_wm, o_ell
+        es_mod.ESSearch.__call__ = o_es_call
         np.random.set_state(st)
     return n, viol
 
